@@ -46,6 +46,7 @@ CellOK(ctx, d, path, k) ==
          [] ctx = "read"    -> k <= n + 1 /\ ~(Kind(core) = "sptr" /\ k # 1)
          [] ctx = "arg"     -> k <= n + 1 /\ ~(Kind(core) = "sptr" /\ k # 1)
          [] ctx = "argmiss" -> k <= n /\ Kind(core) \notin {"sptr", "slice", "view"}
+         [] ctx = "argcast" -> Kind(core) \in {"arr", "slice"} /\ n = 0 /\ k = 0 /\ IsPrim(ElemOf(core))
          [] ctx = "argxp"   -> /\ Kind(core) \in {"arr", "slice", "sptr"} /\ n = (IF Kind(core) = "sptr" THEN 1 ELSE 0)
                                /\ k <= 1 /\ ~(Kind(core) = "sptr" /\ k # 1)
                                /\ IsPrim(ElemOf(core))
@@ -93,7 +94,7 @@ ContextOK(cl) ==
     LET F == Final(cl.d, cl.path)
         core == StripPtr(F)
         et == ExpectType(F, cl.k)
-    IN /\ (cl.ctx = "argxp" => cl.x = "direct" /\ cl.v = "")
+    IN /\ (cl.ctx \in {"argxp", "argcast"} => cl.x = "direct" /\ cl.v = "")
        /\ (cl.y # "top" => Len(cl.path) <= 2)
        \* (a local variable named like a constant is a shadowing error of its own: no same-name function for constants)
        /\ (cl.pre # "none" => Len(cl.path) <= 1 /\ ~(cl.pre = "f_samename" /\ cl.kind = "const"))
@@ -117,7 +118,7 @@ ContextOK(cl) ==
 IsSeed == "seed" \in DOMAIN c
 Init == c \in {[seed |-> b] : b \in Bases}
 Next == /\ IsSeed
-        /\ \E p \in PathsFrom(c.seed[2], MaxSteps), k \in 0..3, ctx \in {"assign", "read", "arg", "argmiss", "argxp"} :
+        /\ \E p \in PathsFrom(c.seed[2], MaxSteps), k \in 0..3, ctx \in {"assign", "read", "arg", "argmiss", "argxp", "argcast"} :
               /\ CellOK(ctx, c.seed[2], p, k)
               /\ \E q \in Contexts : LET cl == MkCell(c.seed, p, k, ctx, q)
                                      IN ContextOK(cl) /\ c' = cl
